@@ -12,13 +12,14 @@ using namespace xalanc;
 namespace {
 
 // ----------------------------------------------------------------------------- the driver's own tree
-struct TNode { std::string name, id; bool hasK = false; int parent = -1; std::vector<int> kids; int idx = 0; };
+struct TNode { std::string name, qname, id; bool hasK = false; int parent = -1; std::vector<int> kids; int idx = 0; };   // name = expanded name "{uri}local"
 struct Tree { std::vector<TNode> n; std::map<std::string, int> byId; };
 
 void buildTree(const xercesc::DOMNode* d, int parent, Tree& t) {
     for (const xercesc::DOMNode* c = d->getFirstChild(); c; c = c->getNextSibling()) {
         if (c->getNodeType() != xercesc::DOMNode::ELEMENT_NODE) continue;
-        TNode x; x.name = narrowU8(c->getNodeName()); x.parent = parent; x.idx = (int)t.n.size();
+        TNode x; x.qname = narrowU8(c->getNodeName()); x.parent = parent; x.idx = (int)t.n.size();
+        { const XMLCh* u = c->getNamespaceURI(); std::string uri = u ? narrowU8(u) : std::string(); x.name = uri.empty() ? narrowU8(c->getLocalName()) : "{" + uri + "}" + narrowU8(c->getLocalName()); }
         const xercesc::DOMNamedNodeMap* m = c->getAttributes();
         for (XMLSize_t i = 0; m && i < m->getLength(); ++i) { std::string an = narrowU8(m->item(i)->getNodeName()); if (an == "id") x.id = narrowU8(m->item(i)->getNodeValue()); else if (an == "k") x.hasK = true; }
         int me = x.idx; t.n.push_back(x); if (parent >= 0) t.n[parent].kids.push_back(me); t.byId[t.n[me].id] = me;
@@ -26,7 +27,7 @@ void buildTree(const xercesc::DOMNode* d, int parent, Tree& t) {
     }
 }
 bool parseTree(const std::string& xml, Tree& t) {
-    xercesc::XercesDOMParser p; QuietErrorHandler eh; p.setErrorHandler(&eh); p.setDoNamespaces(false); p.setValidationScheme(xercesc::XercesDOMParser::Val_Never); p.setLoadExternalDTD(false);
+    xercesc::XercesDOMParser p; QuietErrorHandler eh; p.setErrorHandler(&eh); p.setDoNamespaces(true); p.setValidationScheme(xercesc::XercesDOMParser::Val_Never); p.setLoadExternalDTD(false);
     xercesc::MemBufInputSource src((const XMLByte*)xml.data(), xml.size(), "doc", false);
     try { p.parse(src); } catch (...) { return false; }
     if (eh.failed || !p.getDocument()) return false;
@@ -38,7 +39,8 @@ struct Alt { std::string name; bool needK = false; };     // name "*" = any elem
 struct Pat { bool present = false; std::vector<Alt> alts; std::string text; };
 Pat parsePat(const std::string& s) {
     Pat p; if (s.empty()) return p; p.present = true; p.text = s; std::stringstream ss(s); std::string a;
-    while (std::getline(ss, a, '|')) { Alt x; size_t b = a.find("[@k]"); if (b != std::string::npos) { x.needK = true; a = a.substr(0, b); } x.name = a; p.alts.push_back(x); }
+    while (std::getline(ss, a, '|')) { Alt x; size_t b = a.find("[@k]"); if (b != std::string::npos) { x.needK = true; a = a.substr(0, b); } if (a.compare(0, 3, "p1:") == 0) a = std::string("{") + NS1 + "}" + a.substr(3); else if (a.compare(0, 3, "p2:") == 0) a = std::string("{") + NS2 + "}" + a.substr(3);   // the stylesheet binds p1 and p2 like the document root does
+        x.name = a; p.alts.push_back(x); }
     return p;
 }
 bool matches(const Pat& p, const TNode& n) { for (auto& a : p.alts) if ((a.name == "*" || a.name == n.name) && (!a.needK || n.hasK)) return true; return false; }
@@ -53,29 +55,37 @@ int precedingSiblingsMatching(const Tree& t, int x, const Pat& cnt, const TNode&
 bool isAncestor(const Tree& t, int a, int x) { for (int p = t.n[x].parent; p >= 0; p = t.n[p].parent) if (p == a) return true; return false; }
 
 // Section 7.7.  Returns false when the Recommendation's wording leaves the case open (then only history-independence is checked).
-bool expected(const Tree& t, int c, const std::string& level, const Pat& cnt, const Pat& from, std::vector<int>& out, std::string& relClass) {
+// attr = the current node is the attribute k of element c (attributes follow their element and precede its children in document
+// order; the generated patterns only match elements, the default count pattern matches the attributes named k).
+bool expected(const Tree& t, int c, bool attr, const std::string& level, const Pat& cnt, const Pat& from, std::vector<int>& out, std::string& relClass) {
     const TNode& cur = t.n[c]; out.clear(); relClass = "nofrom";
+    auto elemCounts = [&](const TNode& n) { return attr ? (cnt.present && matches(cnt, n)) : matchesCount(cnt, n, cur); };
     int f = -1;   // scope node from the from pattern
     if (from.present) {
-        if (matches(from, cur)) { relClass = "self-matches-from"; return false; }
+        if (!attr && matches(from, cur)) { relClass = "self-matches-from"; return false; }
         if (level == "any") {
             // "only nodes after the first node before the current node that match the from pattern are considered"
-            for (int i = c - 1; i >= 0; --i) if (matches(from, t.n[i])) { f = i; break; }    // document order = index order; nodes before c are preceding or ancestors
+            for (int i = attr ? c : c - 1; i >= 0; --i) if (matches(from, t.n[i])) { f = i; break; }    // document order = index order; nodes before c are preceding or ancestors
             if (f < 0) { relClass = "no-from-before"; return false; }
-            relClass = isAncestor(t, f, c) ? "from-is-ancestor" : "from-is-preceding";
+            relClass = (f == c || isAncestor(t, f, c)) ? "from-is-ancestor" : "from-is-preceding";
         } else {
-            for (int p = cur.parent; p >= 0; p = t.n[p].parent) if (matches(from, t.n[p])) { f = p; break; }
+            for (int p = attr ? c : cur.parent; p >= 0; p = t.n[p].parent) if (matches(from, t.n[p])) { f = p; break; }
             if (f < 0) { relClass = "no-from-ancestor"; return false; }
             relClass = "from-is-ancestor";
         }
     }
+    if (attr && !cnt.present) {
+        // default count pattern of an attribute: attributes with the same name.  An attribute has no siblings.
+        // level="any" counts within the union of the preceding and ancestor-or-self axes, which hold no attribute but the current one
+        out.push_back(1); return true;
+    }
     if (level == "single") {
-        for (int x = c; x >= 0 && x != f; x = t.n[x].parent) if (matchesCount(cnt, t.n[x], cur)) { out.push_back(1 + precedingSiblingsMatching(t, x, cnt, cur)); break; }
+        for (int x = c; x >= 0 && x != f; x = t.n[x].parent) if (elemCounts(t.n[x])) { out.push_back(1 + precedingSiblingsMatching(t, x, cnt, cur)); break; }
     } else if (level == "multiple") {
-        std::vector<int> rev; for (int x = c; x >= 0 && x != f; x = t.n[x].parent) if (matchesCount(cnt, t.n[x], cur)) rev.push_back(1 + precedingSiblingsMatching(t, x, cnt, cur));
+        std::vector<int> rev; for (int x = c; x >= 0 && x != f; x = t.n[x].parent) if (elemCounts(t.n[x])) rev.push_back(1 + precedingSiblingsMatching(t, x, cnt, cur));
         out.assign(rev.rbegin(), rev.rend());
     } else {
-        int k = 0; for (int i = (f < 0 ? 0 : f + 1); i <= c; ++i) if (matchesCount(cnt, t.n[i], cur)) ++k;
+        int k = 0; for (int i = (f < 0 ? 0 : f + 1); i <= c; ++i) if (elemCounts(t.n[i])) ++k;
         if (k == 0) { relClass += ":zero"; return false; }     // "a list of length one containing 0" vs empty: left open
         out.push_back(k);
     }
@@ -123,7 +133,7 @@ struct C17 : public Driver {
     void init() override { xalanInitOnce(); }
 
     static std::string sheetFor(const Json& sets, const std::string& order) {
-        std::string s = "<?xml version=\"1.0\"?>\n<xsl:stylesheet version=\"1.0\" xmlns:xsl=\"http://www.w3.org/1999/XSL/Transform\"><xsl:output method=\"xml\" encoding=\"UTF-8\" indent=\"no\"/>\n<xsl:template match=\"/\"><out>";
+        std::string s = "<?xml version=\"1.0\"?>\n<xsl:stylesheet version=\"1.0\" xmlns:xsl=\"http://www.w3.org/1999/XSL/Transform\" xmlns:p1=\"" + std::string(NS1) + "\" xmlns:p2=\"" + NS2 + "\" exclude-result-prefixes=\"p1 p2\"><xsl:output method=\"xml\" encoding=\"UTF-8\" indent=\"no\"/>\n<xsl:template match=\"/\"><out>";
         s += "<xsl:for-each select=\"//*\">";
         if (order == "rk") s += "<xsl:sort select=\"@rk\" data-type=\"number\"/>";
         else if (order == "rev") s += "<xsl:sort select=\"position()\" data-type=\"number\" order=\"descending\"/>";
@@ -132,8 +142,11 @@ struct C17 : public Driver {
             const Json& p = sets.a[i]; std::string attrs = " level=\"" + p.str("level") + "\"";
             if (!p.str("count").empty()) attrs += " count=\"" + p.str("count") + "\""; if (!p.str("from").empty()) attrs += " from=\"" + p.str("from") + "\"";
             if (!p.str("value").empty()) attrs = " value=\"" + p.str("value") + "\"";
-            s += "<o f=\"s" + std::to_string(i) + "\" n=\"{@id}\"><xsl:number" + attrs + " format=\"1\"/></o>";
-            s += "<o f=\"t" + std::to_string(i) + "\" n=\"{@id}\"><xsl:number" + attrs + " format=\"" + p.str("token") + "\"/></o>";
+            const bool at = p.boolean("attr"); const std::string idsel = at ? "{../@id}" : "{@id}";
+            if (at) s += "<xsl:for-each select=\"@k\">";      // the current node of xsl:number is an attribute
+            s += "<o f=\"s" + std::to_string(i) + "\" n=\"" + idsel + "\"><xsl:number" + attrs + " format=\"1\"/></o>";
+            s += "<o f=\"t" + std::to_string(i) + "\" n=\"" + idsel + "\"><xsl:number" + attrs + " format=\"" + p.str("token") + "\"/></o>";
+            if (at) s += "</xsl:for-each>";
         }
         s += "</xsl:for-each></out></xsl:template></xsl:stylesheet>\n";
         return s;
@@ -143,7 +156,8 @@ struct C17 : public Driver {
         uint64_t seed = runSeed(verifSeed, "C17", run);
         Rng root(seed); Rng g = root.fork("gen"), gs = root.fork("sched");
         Json p = Json::object(); p["property"] = "C17"; p["run"] = (long long)run; p["seed"] = hex64(seed); p["tier"] = tier;
-        DocCfg dc; dc.ns = false; dc.dtd = false; dc.exoticText = false; dc.maxNodes = (int)g.range(10, 150); dc.maxDepth = (int)g.range(3, 6); dc.maxFan = (int)g.range(2, 6);
+        const bool nsMode = run % 4 == 2;      // prefixed names, some subtrees re-binding the prefix: same QName, different expanded-name
+        DocCfg dc; dc.ns = nsMode; dc.rebind = nsMode; dc.dtd = false; dc.exoticText = false; dc.maxNodes = (int)g.range(10, 150); dc.maxDepth = (int)g.range(3, 6); dc.maxFan = (int)g.range(2, 6);
         dc.manyNames = g.chance(1, 4); if (dc.manyNames) dc.maxNodes = (int)g.range(70, 150);
         GenDoc d = genDoc(g, dc); p["doc"] = d.xml;
         DocCfg dc2 = dc; dc2.maxNodes = (int)g.range(5, 40); GenDoc d2 = genDoc(g, dc2); p["doc2"] = d2.xml;     // a second document for the reused-transformer check
@@ -157,9 +171,10 @@ struct C17 : public Driver {
             s["count"] = cnt; s["from"] = g.chance(1, 3) ? name() : std::string(); s["token"] = g.pick(toks);
             // a fifth of the sets number by value expression instead (the rounding of xsl:number value=)
             if (g.chance(1, 5)) { static const std::vector<std::string> vals = { "count(preceding::*) div 2", "(count(preceding::*) + count(ancestor::*)) div 4", "count(*) + 0.5", "count(preceding-sibling::*) * 1.5 + 1", "count(preceding::*) + 1", "count(preceding::*) * 97 + 650", "(count(preceding::*) + 1) * 676", "count(preceding::*) * 13 + 1900" }; s["value"] = g.pick(vals); s["from"] = ""; s["count"] = ""; }
+            else if (g.chance(1, 5)) s["attr"] = true;       // number the attribute k of every element that has one
             sets.push(s);
         }
-        p["sets"] = sets;
+        p["sets"] = sets; p["ns_mode"] = nsMode;
         // histories: visiting orders x clock modes (the first is the reference)
         Json hist = Json::array(); static const std::vector<std::string> orders = { "doc", "rk", "rev", "deep" }; static const std::vector<std::string> clocks = { "advance", "coarse", "stall", "minus1", "back" };
         { Json h = Json::object(); h["order"] = "doc"; h["clock"] = "advance"; hist.push(h); }
@@ -221,22 +236,23 @@ struct C17 : public Driver {
         // ---- oracle 1 and 4 on the reference history; oracle 2 across histories
         for (size_t i = 0; i < sets.a.size(); ++i) {
             const Json& S = sets.a[i]; Pat cnt = parsePat(S.str("count")), from = parsePat(S.str("from")); std::string level = S.str("level"), tok = S.str("token");
-            std::string shape = (S.str("value").empty() ? level : std::string("value")) + "|" + shapeOf(S.str("count")) + "|" + (from.present ? "from" : "nofrom");
+            std::string shape = (S.str("value").empty() ? level : std::string("value")) + "|" + shapeOf(S.str("count")) + "|" + (from.present ? "from" : "nofrom") + (S.boolean("attr") ? "|attr" : "");
             res.tag(shape + "|" + tok);
             for (size_t c = 0; c < t.n.size(); ++c) {
                 const std::string& id = t.n[c].id; std::string ks = "s" + std::to_string(i) + "|" + id, kt = "t" + std::to_string(i) + "|" + id;
+                const bool at = S.boolean("attr"); if (at && !t.n[c].hasK) continue; if (at) res.count("numbered_attribute_nodes");
                 auto it = values[0].find(ks); if (it == values[0].end()) { res.violate("missing-record", shape, "no record for node " + id); break; }
                 const std::string& got = it->second;
                 std::vector<int> exp; std::string rel; bool decided;
                 if (!S.str("value").empty()) { double v = valueOf(t, (int)c, S.str("value")); long r = (long)std::floor(v + 0.5); decided = r >= 1; exp.clear(); if (decided) exp.push_back((int)r); rel = "value"; level = "value"; }
-                else decided = expected(t, (int)c, level, cnt, from, exp, rel);
+                else decided = expected(t, (int)c, at, level, cnt, from, exp, rel);
                 res.count("numbered_nodes");
                 if (decided) {
                     res.count("oracle_decided");
                     std::string dir = "differs"; { std::vector<int> gl; if (decodeList(got, "1", gl)) { if (exp.empty() && !gl.empty()) dir = "spurious"; else if (!exp.empty() && gl.empty()) dir = "missing"; else if (gl.size() != exp.size()) dir = "length"; else if (gl > exp) dir = "over"; else dir = "under"; } }
                     // signature: level, relation of the from match to the node (or the count shape when there is no from), direction of the error
                     std::string dsig = level + "|" + (from.present ? "from:" + rel : "nofrom:" + shapeOf(S.str("count"))) + "|" + dir;
-                    if (got != listStr(exp)) res.violate("definition-mismatch", dsig, "node " + id + " <" + t.n[c].name + ">: xsl:number level=" + level + " count='" + S.str("count") + "' from='" + S.str("from") + "' gives [" + got + "], section 7.7 gives [" + listStr(exp) + "]");
+                    if (got != listStr(exp)) res.violate("definition-mismatch", dsig, "node " + id + " <" + t.n[c].qname + ">" + (at ? "/@k" : "") + " (" + t.n[c].name + "): xsl:number level=" + level + " count='" + S.str("count") + "' from='" + S.str("from") + "' gives [" + got + "], section 7.7 gives [" + listStr(exp) + "]");
                 } else res.count("oracle_open:" + rel);
                 // format round trip
                 auto ft = values[0].find(kt);
